@@ -4,12 +4,17 @@ import random
 from common import quiet, quiet_import
 
 
-def make_top(name, ins, outs, body):
+def make_top(name, ins, outs, body, clkname=None):
     """ins/outs: list of (port_name, width).  body(top, in_wires dict, out_wires dict) instantiates blocks inside `top`.
+    clkname: name of the system clock driver (None = the default `clk`; board platforms use names such as CLOCK_50).
     returns (hw, top)"""
     py4hw = quiet_import()
     with quiet():
-        hw = py4hw.HWSystem()
+        if clkname is None:
+            hw = py4hw.HWSystem()
+        else:
+            hw = py4hw.HWSystem()
+            hw.clockDriver = py4hw.ClockDriver(clkname, 50E6, 0, wire=hw.wire(clkname))
         iw = {n: hw.wire(n, w) for n, w in ins}
         ow = {n: hw.wire(n, w) for n, w in outs}
 
